@@ -46,6 +46,12 @@ CHECKS.update({
  "C07": ("fault_enumeration", "deterministic simulation with crash/restart injection: each kind of reset is injected after every prefix of a seeded history and at every clock edge inside its bursts; durable state (RAM, physical board inputs) must survive, everything else must equal a machine constructed afresh",
          "Model-free: every prefix of each history x {cpu_reset, master_reset, load}: documented getters at power-on values; RAM/inputs/board/limits/step mode untouched as documented; full == against a machine built from Machine::new through public setters (covers every private field: pending writes, wait flag, micro-address, ALU latch, key flip-flop, timer); a reloaded machine runs cycle-for-cycle like Machine::new_with_program for a follow-up program.",
          "Trusted: Machine::clone/PartialEq; values written to the getter-less UART/timer registers are known only for direct writes (program-driven ones are detected on the bus and disable the constructed-equality oracle for that history).", "DESIGN.md 6 C07"),
+ "C12": ("exploration", "deterministic simulation: schedules of injected key interrupts and CPU resets over a cycle budget plus file faults; the real runner (in-process) and the real CLI binary (subprocess: argv + file in, text + status out) against the loop the statement spells out",
+         "In-process: RunnerConfig::run vs the stated loop on a second real Machine (full Machine equality and cycle count) for generated source programs x configurations x budgets {0, 1, small, halt time +-2, large} x interrupt/reset schedules with duplicates, cycle 0, beyond-the-end entries and same-cycle collisions; verify() for all 8 expectation subsets x matching / one mismatching value. Process: the real 2a-emulator built from the working tree, every byte flag in decimal/0x/0b, repeated --interrupt/--reset, verify sub-command, malformed values, missing file / directory / non-UTF-8 / syntax error / undefined label; printed Cycles/State/FE/FF and the exit status compared.",
+         "Trusted: the stated loop as written in the harness; parser/translator/Machine are real components on both sides; only the subset of programs on which compile+load is total is generated.", "DESIGN.md 6 C12"),
+ "C17": ("exploration", "deterministic simulation of the event-driven front end: scripted terminal events, terminal resizes, auto-run budgets and file faults driven through the real Tui headlessly (guarded hook), one frame per event",
+         "Sessions of 1-200 events (ASCII, command fragments, complete generated command lines of every documented form with boundary values and malformed tokens, multi-byte characters, editing/history/completion keys, CTRL chords, unknown keys, mouse/resize events, resizes over 1x1..250x100, load targets with file faults): no panic in handle_event+draw; the rendered cursor stays inside the text; every submitted line is classified by an independent recogniser of the documented commands and the session's machine must equal a twin on which the library call of the same name was made, or the line must be rejected with a notification and no effect; CTRL keys and empty-line Enter act as the library calls.",
+         "Trusted: R-CMD recogniser written from README/property text; stubs: TestBackend, injected event queue, verif_frame instead of the loop shell of Tui::run (a change confined to that shell is not detected).", "DESIGN.md 6 C17"),
 })
 
 PENDING = {}
@@ -92,7 +98,7 @@ def main():
         json.dump(m, f, indent=1)
         f.write("\n")
 
-HOOK_COMMITS = []
+HOOK_COMMITS = ['7db1009653b6753213164481492033584a5cd6db']
 if __name__ == "__main__":
     # pending properties: those of C01..C17 neither claimed nor not-applicable yet
     for i in range(1, 18):
